@@ -23,6 +23,16 @@ for name in sorted(os.listdir(os.path.join(ROOT, "seeded"))):
     caught = [p for p, v in res.items() if v["reported"]]
     rows.append((name, meta.get("summary", "")[:110], ", ".join(caught) or "MISSED", ", ".join(p for p in res if p not in caught)))
     print(name, "->", caught or "MISSED", flush=True)
+# the matrix is rebuilt from every seed's stored result (so that partial / parallel re-runs compose)
+rows = []
+for name in sorted(os.listdir(os.path.join(ROOT, "seeded"))):
+    d = os.path.join(ROOT, "seeded", name)
+    if not os.path.isdir(d):
+        continue
+    meta = json.load(open(os.path.join(d, "meta.json")))
+    res = meta.get("detected_by_current_checks") or meta.get("detected_by", {})
+    caught = [p for p, v in res.items() if v["reported"]]
+    rows.append((name, meta.get("summary", "")[:110].replace("\n", " "), ", ".join(caught) or "MISSED", ", ".join(p for p in res if p not in caught)))
 with open(os.path.join(ROOT, "seeded", "MATRIX.md"), "w") as f:
     f.write("# Seeded changes vs. current checks (quick tier; regenerate with checklib/rerun_seeds.py)\n\n| seed | change | reported by | run but silent |\n|---|---|---|---|\n")
     for r in rows:
